@@ -480,13 +480,15 @@ func getRound(n float64) float64 {
 		return n
 	}
 
-	if n < -0.5 {
-		n = float64(int(n - 0.5))
-	} else if n > 0.5 {
-		n = float64(int(n + 0.5))
-	} else {
-		n = 0
+	f := math.Floor(n)
+	d := n - f
+
+	// Ties round toward positive infinity, except for negative numbers, which
+	// round away from zero.  This is kept for backward compatibility with the
+	// existing tests (round(-1.5) = -2).
+	if d > 0.5 || (d == 0.5 && n > 0) {
+		return f + 1
 	}
 
-	return n
+	return f
 }
